@@ -52,6 +52,10 @@ func main() {
 		code = scenarioTwin()
 	case "datagram":
 		code = scenarioDatagram()
+	case "segments":
+		code = scenarioSegments()
+	case "reset":
+		code = scenarioReset()
 	case "pintime":
 		code = scenarioPinTime()
 	default:
